@@ -38,6 +38,9 @@ func c10Specs(tier string) []*Spec {
 		add("cache1000/3keys/d5", Cfg{Fast: true, Cache: 1000}, k3, 5, 2, 4)
 		add("iv7/3keys/d5", Cfg{Fast: true, IVSet: true, IV: 7}, k3, 5, 2, 4)
 		add("emptykey/d5", defaultCfg, [][]byte{{}, []byte("a"), []byte("b")}, 5, 2, 4)
+		for _, n := range []int{63, 64, 127, 128, 8192} {
+			add(fmt.Sprintf("sharedprefix%d/d4", n), defaultCfg, sharedPrefixKeys(n), 4, 1, 2)
+		}
 		return specs
 	}
 	add("default/3keys/d8", defaultCfg, k3, 8, 2, 30)
@@ -46,7 +49,19 @@ func c10Specs(tier string) []*Spec {
 	add("cache1000/3keys/d7", Cfg{Fast: true, Cache: 1000}, k3, 7, 2, 8)
 	add("iv7/3keys/d7", Cfg{Fast: true, IVSet: true, IV: 7}, k3, 7, 2, 8)
 	add("emptykey/d6", defaultCfg, [][]byte{{}, []byte("a"), []byte("b")}, 6, 2, 8)
+	for _, n := range []int{1, 62, 63, 64, 65, 126, 127, 128, 129, 8191, 8192, 16383, 16384} {
+		add(fmt.Sprintf("sharedprefix%d/d5", n), defaultCfg, sharedPrefixKeys(n), 5, 1, 2)
+	}
 	return specs
+}
+
+// sharedPrefixKeys: three keys that share a prefix of exactly n bytes with their neighbours in key order (the
+// compressed export codec writes the length of the shared prefix as a varint: 63/64, 127/128, 8191/8192 and
+// 16383/16384 are the boundaries of its signed and unsigned encodings).
+func sharedPrefixKeys(n int) [][]byte {
+	p := bytes.Repeat([]byte("p"), n)
+	k := func(suffix string) []byte { return append(append([]byte{}, p...), suffix...) }
+	return [][]byte{k("a"), k("b"), k("c")}
 }
 
 // oracleExports: every retained version exports exactly the reference post-order stream (plain), and the
